@@ -2,9 +2,9 @@ from common import *
 from regcommon import *
 import C01
 ID = 'C02'
-TRANSLATORS = [('consts2coq.py', ['coq/Gen/Consts.v'])]
-GEN_FILES = ['coq/Gen/Consts.v']
-COQ_TARGETS = ['Properties_C02.vo', 'Proof/ConstsReg.vo']
+TRANSLATORS = [('consts2coq.py', ['coq/Gen/Consts.v']), ('reg2coq.py', ['coq/Gen/RegLeafGen.v'])]
+GEN_FILES = ['coq/Gen/Consts.v', 'coq/Gen/RegLeafGen.v']
+COQ_TARGETS = ['Properties_C02.vo', 'Proof/ConstsReg.vo', 'Proof/RegLeafT.vo']
 HARNESS_MODS = ['reg']
 RULE = ('reg.run cases (see C01) whose operations are block writes: tables from the small-scope family (1-3 areas adjacent or with gaps, RW/RO/WO, memory/callback backed; u16/u32/u64/signed/float '
         'registers with every constraint kind at every alignment), EVERY (address, length) in a window from 2 below the lowest base to 2 above the highest end, word patterns all-zero, all-ones, '
@@ -16,7 +16,7 @@ EXHAUSTIVE = {'quick': False, 'thorough': False}
 NO_SHRINK = True
 TECHNIQUE = 'Coq proof (all-or-nothing and frame of block writes, failure classes and first failing address) + correspondence over every window position of the small-scope table family'
 LEVEL_TEXT = ('Theorems in Properties_C02.v: a failed block write changes nothing (atomicity); the failure classes in their order with the READONLY / NOENTRY addresses; success implies every address mapped, no read-only area touched, every overlapped register decodes and validates after the overlay and is marked touched; and for tables whose areas are ordered, disjoint and full the exact word image of a successful write across area borders: every address of the request holds the written word, every other address its old word, geometry unchanged (flat word-memory abstraction word_at, general theorem about write_words).  Model tied to the C by correspondence.')
-LEVEL_NOTE = 'Trusted: Coq kernel; hand model of registers/core.c block write path (declarative overlay; correspondence-tested on every window); ASan for the caller buffer and raw[4]. No axioms.'
+LEVEL_NOTE = 'Trusted: Coq kernel; hand model of registers/core.c block write path (declarative overlay; correspondence-tested on every window); ASan for the caller buffer and raw[4]. No axioms. Translator tie: ra_range_touches and ra_addr_is_part_of of src/registers/core.c, translated on every check (tools/reg2coq.py), are proved equal to the predicates of the model for every area and request inside the 32-bit address space (Proof/RegLeafT.v).'
 
 def patterns(rng, tab, addr, n):
     yield [0] * n
